@@ -35,7 +35,41 @@ fn coord(K: &CscMatrix<f64>, t: usize) -> (usize, usize) {
     (K.rowval[t], col_of(&K.colptr, t))
 }
 
-fn maps_check<const M: usize, const NNZA: usize>(cones_t: &[SupportedConeT<f64>], pid: u8, triu: bool) {
+/// A: M x 2 with a concrete pattern given by a bit mask over entries in column-major order
+fn a_pattern<const M: usize>(mask: u32) -> (Vec<usize>, Vec<usize>) {
+    let mut colptr = vec![0usize; N + 1];
+    let mut rowval = Vec::new();
+    let mut bit = 0;
+    let mut j = 0;
+    while j < N {
+        let mut i = 0;
+        while i < M {
+            if (mask >> bit) & 1 == 1 {
+                rowval.push(i);
+            }
+            bit += 1;
+            i += 1;
+        }
+        colptr[j + 1] = rowval.len();
+        j += 1;
+    }
+    (colptr, rowval)
+}
+
+/// the whole structure (P pattern, A pattern, cone layout, triangle) is concrete: the KKT assembly
+/// allocates K with a size computed from the patterns, and with a symbolic A pattern the position
+/// checks did not finish in 25-30 min; all numeric VALUES are symbolic.  Several A patterns per harness.
+fn maps_check<const M: usize, const NNZA: usize>(cones: &CompositeCone<f64>, pid: u8, triu: bool) {
+    // A patterns: dense first column + top of second; last row only; empty first column; scattered
+    let full: u32 = (1u32 << (2 * M)) - 1;
+    let masks = [full, (1u32 << (M - 1)) | (1u32 << (2 * M - 1)), full & !((1u32 << M) - 1), 0b1001_0110_1001 & full];
+    for &mask in masks.iter() {
+        maps_check_one::<M>(cones, pid, triu, mask);
+    }
+    kani::cover!(true, "all A patterns visited");
+}
+
+fn maps_check_one<const M: usize>(cones: &CompositeCone<f64>, pid: u8, triu: bool, amask: u32) {
     let (pc, pr) = p_pattern(pid);
     let nnzp = pr.len();
     let mut pv = vec![0f64; nnzp];
@@ -45,10 +79,17 @@ fn maps_check<const M: usize, const NNZA: usize>(cones_t: &[SupportedConeT<f64>]
         k += 1;
     }
     let P = CscMatrix::<f64> { m: N, n: N, colptr: pc, rowval: pr, nzval: pv };
-    let A = any_csc_f64::<M, N, NNZA>(9);
-    let cones = cc::new_without_type_counts(cones_t);
+    let (ac, ar) = a_pattern::<M>(amask);
+    let NNZA = ar.len();
+    let mut av = vec![0f64; NNZA];
+    let mut k = 0;
+    while k < NNZA {
+        av[k] = small_f64(9);
+        k += 1;
+    }
+    let A = CscMatrix::<f64> { m: M, n: N, colptr: ac, rowval: ar, nzval: av };
     assert!(cones.numel() == M);
-    let (K, map) = kk::assemble_kkt_matrix(&P, &A, &cones, triu);
+    let (K, map) = kk::assemble_kkt_matrix(&P, &A, cones, triu);
 
     // sparse expansion dimension
     let mut p = 0;
@@ -114,8 +155,8 @@ fn maps_check<const M: usize, const NNZA: usize>(cones_t: &[SupportedConeT<f64>]
         i += 1;
     }
     // ---- Hs blocks, cone by cone
-    let rc = cc::rng_cones(&cones);
-    let rb = cc::rng_blocks(&cones);
+    let rc = cc::rng_cones(cones);
+    let rb = cc::rng_blocks(cones);
     let mut ci = 0;
     let mut si = 0;
     let mut pcol = N + M;
@@ -195,39 +236,39 @@ fn maps_check<const M: usize, const NNZA: usize>(cones_t: &[SupportedConeT<f64>]
         assert!(used[t], "every_K_entry_is_accounted_for_by_exactly_one_map");
         t += 1;
     }
-    kani::cover!(A.rowval[NNZA - 1] == M - 1, "A entry in the last row");
 }
 
 macro_rules! maps_harness {
-    ($name:ident, $m:expr, $nnza:expr, $cones:expr, $pid:expr, $triu:expr, $unwind:expr) => {
+    ($name:ident, $m:expr, $nnza:expr, [$($c:expr),*], $pid:expr, $triu:expr, $unwind:expr) => {
         #[kani::proof]
         #[kani::unwind($unwind)]
         #[kani::stub(std::collections::hash_map::RandomState::new, stub_random_state)]
         pub fn $name() {
             use SupportedConeT::*;
-            maps_check::<$m, $nnza>(&$cones, $pid, $triu);
+            crate::stack_composite!(cones, f64, [$($c),*]);
+            maps_check::<$m, $nnza>(&cones, $pid, $triu);
         }
     };
 }
 // layout [Zero1, NN2]  (m = 3, all-diagonal Hs)
-maps_harness!(c11_maps_znn_p3_triu, 3, 3, [ZeroConeT(1), NonnegativeConeT(2)], 3, true, 12);
-maps_harness!(c11_maps_znn_p2_tril, 3, 3, [ZeroConeT(1), NonnegativeConeT(2)], 2, false, 12);
-maps_harness!(c11_maps_znn_p0_triu, 3, 2, [ZeroConeT(1), NonnegativeConeT(2)], 0, true, 12);
-maps_harness!(c11_maps_znn_p4_tril, 3, 2, [ZeroConeT(1), NonnegativeConeT(2)], 4, false, 12);
+maps_harness!(c11_maps_znn_p3_triu, 3, 3, [ZeroConeT(1), NonnegativeConeT(2)], 3, true, 48);
+maps_harness!(c11_maps_znn_p2_tril, 3, 3, [ZeroConeT(1), NonnegativeConeT(2)], 2, false, 48);
+maps_harness!(c11_maps_znn_p0_triu, 3, 2, [ZeroConeT(1), NonnegativeConeT(2)], 0, true, 48);
+maps_harness!(c11_maps_znn_p4_tril, 3, 2, [ZeroConeT(1), NonnegativeConeT(2)], 4, false, 48);
 // layout [NN1, SOC3] (m = 4, dense 3x3 Hs block)
-maps_harness!(c11_maps_nnsoc3_p1_triu, 4, 3, [NonnegativeConeT(1), SecondOrderConeT(3)], 1, true, 16);
-maps_harness!(c11_maps_nnsoc3_p5_tril, 4, 3, [NonnegativeConeT(1), SecondOrderConeT(3)], 5, false, 16);
+maps_harness!(c11_maps_nnsoc3_p1_triu, 4, 3, [NonnegativeConeT(1), SecondOrderConeT(3)], 1, true, 48);
+maps_harness!(c11_maps_nnsoc3_p5_tril, 4, 3, [NonnegativeConeT(1), SecondOrderConeT(3)], 5, false, 48);
 // layout [SOC5] (m = 5, sparse expansion: two extra rows/columns)
-maps_harness!(c11_maps_soc5_p3_triu, 5, 3, [SecondOrderConeT(5)], 3, true, 20);
-maps_harness!(c11_maps_soc5_p2_tril, 5, 3, [SecondOrderConeT(5)], 2, false, 20);
+maps_harness!(c11_maps_soc5_p3_triu, 5, 3, [SecondOrderConeT(5)], 3, true, 48);
+maps_harness!(c11_maps_soc5_p2_tril, 5, 3, [SecondOrderConeT(5)], 2, false, 48);
 // layout [Exp] (m = 3, dense nonsymmetric block) and [NN1, SOC5, Zero1]
-maps_harness!(c11_maps_exp_p4_triu, 3, 2, [ExponentialConeT()], 4, true, 14);
-maps_harness!(c11_maps_nnsoc5z_p1_tril, 7, 3, [NonnegativeConeT(1), SecondOrderConeT(5), ZeroConeT(1)], 1, false, 24);
+maps_harness!(c11_maps_exp_p4_triu, 3, 2, [ExponentialConeT()], 4, true, 48);
+maps_harness!(c11_maps_nnsoc5z_p1_tril, 7, 3, [NonnegativeConeT(1), SecondOrderConeT(5), ZeroConeT(1)], 1, false, 48);
 
 // layout [SOC3, SOC5]: a sparse-expanded cone AFTER a cone with a dense Hs block (row offsets of the
 // expansion come from the cone ranges, not from the packed block ranges)
-maps_harness!(c11_maps_soc3soc5_p1_triu, 8, 3, [SecondOrderConeT(3), SecondOrderConeT(5)], 1, true, 26);
-maps_harness!(c11_maps_expsoc5_p0_tril, 8, 2, [ExponentialConeT(), SecondOrderConeT(5)], 0, false, 26);
+maps_harness!(c11_maps_soc2soc5_p1_triu, 7, 2, [SecondOrderConeT(2), SecondOrderConeT(5)], 1, true, 48);
+maps_harness!(c11_maps_expsoc5_p0_tril, 8, 2, [ExponentialConeT(), SecondOrderConeT(5)], 0, false, 48);
 
 /// translation validation of the hook constructor: CompositeCone without the printing-only map
 /// agrees with the real constructor on every field the solver uses (run natively, not under Kani)
@@ -300,7 +341,7 @@ impl DirectLDLSolver<f64> for MirrorEngine {
     }
 }
 
-fn kkt_sync<const M: usize>(cones_t: &[SupportedConeT<f64>], reg: bool) {
+fn kkt_sync<const M: usize>(cones: &mut CompositeCone<f64>, reg: bool) {
     // P: full upper triangle, A: dense M x 2 (concrete patterns), symbolic values
     let mut P = CscMatrix::<f64> { m: 2, n: 2, colptr: vec![0, 1, 3], rowval: vec![0, 0, 1], nzval: vec![0.0; 3] };
     let mut rowval = Vec::new();
@@ -316,9 +357,8 @@ fn kkt_sync<const M: usize>(cones_t: &[SupportedConeT<f64>], reg: bool) {
     for k in 0..2 * M {
         A.nzval[k] = small_f64(9);
     }
-    let mut cones = cc::new_without_type_counts(cones_t);
     cones.set_identity_scaling();
-    let mut ks = lk::new_with_engine(&P, &A, &cones, M, 2, true, |K, _d| {
+    let mut ks = lk::new_with_engine(&P, &A, cones, M, 2, true, |K, _d| {
         // the engine takes its own copy of the assembled matrix, like QDLDL does
         unsafe {
             MIRROR_N = K.nzval.len();
@@ -344,7 +384,7 @@ fn kkt_sync<const M: usize>(cones_t: &[SupportedConeT<f64>], reg: bool) {
     ks.update_A(&A2);
     let mut st = settings_f64();
     st.static_regularization_enable = reg;
-    let ok = ks.update(&cones, &st);
+    let ok = ks.update(cones, &st);
     assert!(ok);
     unsafe {
         assert!(REFACTORS == 1, "update_refactors_once");
@@ -385,14 +425,16 @@ fn kkt_sync<const M: usize>(cones_t: &[SupportedConeT<f64>], reg: bool) {
 #[kani::unwind(14)]
 #[kani::stub(std::collections::hash_map::RandomState::new, stub_random_state)]
 pub fn c11_kkt_sync_nn2_reg() {
-    kkt_sync::<2>(&[SupportedConeT::NonnegativeConeT(2)], true);
+    crate::stack_composite!(cones, f64, [SupportedConeT::<f64>::NonnegativeConeT(2)]);
+    kkt_sync::<2>(&mut cones, true);
 }
 
 #[kani::proof]
 #[kani::unwind(14)]
 #[kani::stub(std::collections::hash_map::RandomState::new, stub_random_state)]
 pub fn c11_kkt_sync_zero1_nn1_noreg() {
-    kkt_sync::<2>(&[SupportedConeT::ZeroConeT(1), SupportedConeT::NonnegativeConeT(1)], false);
+    crate::stack_composite!(cones, f64, [SupportedConeT::<f64>::ZeroConeT(1), SupportedConeT::<f64>::NonnegativeConeT(1)]);
+    kkt_sync::<2>(&mut cones, false);
 }
 
 #[kani::proof]
@@ -400,5 +442,6 @@ pub fn c11_kkt_sync_zero1_nn1_noreg() {
 #[kani::stub(std::collections::hash_map::RandomState::new, stub_random_state)]
 pub fn c11_kkt_sync_soc5_reg() {
     // sparse expansion: update() also writes u, v (update + scale) and the expansion diagonal
-    kkt_sync::<5>(&[SupportedConeT::SecondOrderConeT(5)], true);
+    crate::stack_composite!(cones, f64, [SupportedConeT::<f64>::SecondOrderConeT(5)]);
+    kkt_sync::<5>(&mut cones, true);
 }
